@@ -1,7 +1,7 @@
 """C15 - Exp / Normal / LogNormal: total parameter validation, always-valid samples."""
 from . import common as C, gen_float as G, float_oracles as FO
 
-LEAN_MODULE = "Urandom.Props.C15"
+LEAN_MODULE = ["Urandom.Props.C15", "Urandom.Props.C15T", "Urandom.Props.C16T"]
 RULE = ("requests: Exp / Normal / LogNormal through try_new, try_from_mean_cv, new, from_mean_cv (panic iff error) for f32 and f64 parameters of every class (+-0, subnormal, huge, "
         "+-inf, NaN, negative, random), samples under scripted words that drive rectangle, wedge and tail paths (all-zero and all-one words included), from_zscore on arbitrary z; "
         "StandardNormal / Exp1 directly. oracle: documented domain <-> accept/err kind, no panic on try_ paths, no NaN sample for accepted non-NaN parameters, sign of Exp/LogNormal "
